@@ -79,6 +79,19 @@ PROPS = {
             "vint lengths (primitive/vint.go) are covered where the vint model is present (see DESIGN.md)",
         ],
     },
+    "C04": {
+        "lean_targets": ["Cql.Props.C04"],
+        "trusted_base": COMMON_TRUST + [HARNESS, TRANSLATOR + " (constants and predicates used by the model)",
+            "Cql/Impl/*, Cql/Prim.lean, Cql/DataType.lean: hand-written code-shaped model in which every Go panic site reachable from wire "
+            "data is an explicit third outcome; tied to the code by the correspondence run over mutated inputs (outcome class and bytes "
+            "consumed compared at every entry point)"],
+        "assumptions": [
+            "third-party decompressors (pierrec/lz4, golang/snappy) are parameters assumed not to panic; observed by the harness only",
+            "termination = totality of the model functions (structural recursion on counts/fuel bounded by the input); Go stack depth "
+            "and allocation volume are observed by the harness (recover, 10 s limit, heap watchdog), not proved",
+            "segment decoders and the reflect-based CQL value decoders are covered where their models are present (see DESIGN.md)",
+        ],
+    },
     "C05": {
         "lean_targets": ["Cql.Props.C05"],
         "trusted_base": COMMON_TRUST + [HARNESS, TRANSLATOR + " (constants, validity and version predicates used by the model)",
@@ -162,6 +175,16 @@ MANIFEST_TEXT = {
         "note": "Trusted: as C01. The length calculators are transcribed separately from the writers and compared with the Go ones "
                 "differentially (declared vs emitted vs EncodedLength on every generated frame; back-to-back streams).",
         "technique": "Lean 4 length theorems + induction over frame sequences on a code-shaped model + differential correspondence",
+    },
+    "C04": {
+        "text": "Lean theorems: no byte string of any length drives any modelled decoder into a panic site — every primitive reader, type "
+                "descriptors to any depth, every message body decoder for every opcode byte and version number, header, body, frame "
+                "(for every compressor that does not itself panic), raw frame, ConvertFromRawFrame. Panic sites (make with a negative "
+                "length, index out of range, nil dereference) are explicit outcomes of the model, so this is a theorem and not a side "
+                "effect of totality. The model's outcome class is compared with the real decoders on tens of thousands of mutated inputs.",
+        "design_ref": "DESIGN.md §5 C04",
+        "note": "Partial: third-party decompressors, reflect-based value decoders, Go stack depth and allocation volume are observed only.",
+        "technique": "Lean 4 compositional no-panic theorems over a model with explicit panic outcomes + differential mutation testing",
     },
     "C05": {
         "text": "Lean theorems for every version-valid frame and every trailing byte string: DecodeRawFrame reads header + exactly the "
